@@ -6,6 +6,8 @@ executes), fault / no fault, fault line, and no partial effect of a faulting ins
 """
 from __future__ import annotations
 
+import re
+
 from vf.gen import classical as gc
 from vf.harness import l2
 from vf.ref import interp as ri
@@ -97,7 +99,14 @@ def _run_case(ctx, case):
         rt = r_info["trace"]
         ctx.count("branches_taken", sum(1 for x, y in zip(rt, rt[1:]) if y != x + 1))
         where = f"subroutine {k} (app {app})"
-        if e_out != r_out and case.get("hw") and "OverflowError" in str(e_info.get("exc", "")):
+        m_ = re.search(r"value (-?\d+) does not fit into (\d+) bits", str(e_info.get("exc", ""))) if case.get("hw") else None
+        if m_ and -(2 ** (int(m_.group(2)) - 1)) <= int(m_.group(1)) <= 2 ** (int(m_.group(2)) - 1) - 1:
+            ctx.fail(case, f"{where}: on the hardware setting the executor refused the value {m_.group(1)}, which fits {m_.group(2)} bits "
+                           f"({e_info.get('exc', '')})")
+            return ctx.case(case, nontrivial)
+        if m_:
+            # (a value that does not fit 32 bits is refused on the hardware setting - also when the reference, which does not model
+            # widths, faults somewhere later for its own reason)
             ctx.count("discarded_hardware_width_refusals")
             complete = False
             break
